@@ -773,7 +773,7 @@ class C15(Prop):
         "names the generator never sees (struct members, enum values, cbuffer names and members, template parameters) are outside the model; they are probed on the emitted text and recorded as known findings",
         "'every use refers to the entity it referred to': proved for the path model (coq/model/Scopes.v, `C15_emitted_path_names_its_symbol`: the path `emit` writes for a symbol resolves, by the front end's lookup, to that symbol from every use site, under every stack of local frames); tied by running `Scopes.emit` against NameMap::get_name_qualified for every symbol x every use site (root and each namespace) of every table case, incl. programs of shadowing names three namespaces deep with enum values, members and methods of the same names; and end to end by U cases: the emitted HLSL of such programs is read back by the front end and every function body must name the same entities",
         "the environment handed to `Scopes.emit` (which namespaces exist, what each declares, which names are members / locals / methods) is built from the case's symbol table by the extraction glue (coq/extract/EC15.v), not proved",
-        "renaming: proved for one scope of the name generator whose names are fresh (`C15_renaming_renames_the_result`, coq/proofs/NameGenEquiv.v); not proved for local variables or for the stages around the generator, which the renaming / probe runs sample",
+        "renaming: proved for one scope of the name generator whose names are fresh (`C15_renaming_renames_the_result`) and for its local-variable pass (`C15_renaming_renames_the_locals`; coq/proofs/NameGenEquiv.v); not proved for the stages around the generator, which the renaming / probe runs sample",
     ]
 
     def known_class(self, case, impl, model):
